@@ -44,7 +44,10 @@ func execHL(op string) string {
 		}
 		return "diff"
 	}
-	return fmt.Sprintf("N=%s V=%s", sd(ha.Names == hb.Names), sd(ha.Values == hb.Values))
+	// the inputs are injective on these pairs, so "same hash" is compared through the inputs by the model (N, V);
+	// the hash values themselves are compared with the model's FNV-64a bit for bit (A, B)
+	return fmt.Sprintf("N=%s V=%s A=%016x/%016x B=%016x/%016x", sd(ha.Names == hb.Names), sd(ha.Values == hb.Values),
+		uint64(ha.Names), uint64(ha.Values), uint64(hb.Names), uint64(hb.Values))
 }
 
 func init() {
